@@ -1,9 +1,16 @@
+// vcheck decides the golua properties by bounded symbolic execution of the
+// repository's Go SSA (package gosym) and an SMT solver.
 package main
 
 import (
+	"encoding/json"
 	"flag"
 	"fmt"
+	"hash/fnv"
 	"os"
+	"path/filepath"
+	"sort"
+	"strconv"
 	"strings"
 	"time"
 
@@ -11,53 +18,549 @@ import (
 	"verif/engine/gosym"
 )
 
+type PropMeta struct {
+	Pkgs        []string          `json:"pkgs"`
+	Tags        string            `json:"tags"`
+	TimeoutMs   int               `json:"timeout_ms"`
+	ThoroughTimeoutMs int         `json:"thorough_timeout_ms"`
+	MaxPaths    int               `json:"max_paths"`
+	MaxDecisions int              `json:"max_decisions"`
+	Bounds      map[string]string `json:"bounds"`
+	Assumptions []string          `json:"assumptions"`
+	Outside     []string          `json:"outside"`
+	ValidateN   int               `json:"validate_n"`
+	AllocBound  int               `json:"alloc_bound"`
+	SolverArgs  map[string][]string `json:"solver_args"`
+	NoValidate  []string          `json:"no_validate"` // harnesses excluded from translator validation (with reason in props)
+}
+
+type KnownFinding struct {
+	ID       string `json:"id"`
+	Property string `json:"property"`
+	Status   string `json:"status"` // "open" or "fixed"
+	Commit   string `json:"commit,omitempty"`
+	Text     string `json:"text"`
+}
+
+func fatal(code int, format string, a ...interface{}) {
+	fmt.Fprintf(os.Stderr, format+"\n", a...)
+	os.Exit(code)
+}
+
 func main() {
 	var (
-		pkgs    = flag.String("pkgs", "runtime", "comma-separated repo-relative package dirs")
-		run     = flag.String("run", "VerifH_", "harness name prefix")
-		tier    = flag.String("tier", "quick", "quick|thorough")
+		prop    = flag.String("property", "", "property id (C01..C20)")
+		tier    = flag.String("tier", "", "quick|thorough (default $VERIF_TIER or quick)")
+		pkgs    = flag.String("pkgs", "", "dev: comma-separated repo-relative package dirs")
+		run     = flag.String("run", "", "dev: harness name prefix filter")
 		solver  = flag.String("solver", "cvc5", "cvc5|z3-new|z3")
-		timeout = flag.Int("timeout", 30000, "per-query timeout ms")
+		timeout = flag.Int("timeout", 0, "per-query timeout ms (override)")
 		workers = flag.Int("workers", 16, "workers")
-		tags    = flag.String("tags", "verif", "build tags")
 		repo    = flag.String("repo", "/repo", "repository")
-		hdir    = flag.String("harness", "/verif/harness", "harness dir")
-		maxp    = flag.Int("maxpaths", 20000, "max paths per harness")
+		vdir    = flag.String("verif", "/verif", "verif dir")
+		replay  = flag.String("replay", "", "replay file")
+		noNative = flag.Bool("nonative", false, "dev: skip native build/replay/validation")
+		verbose = flag.Bool("v", false, "verbose")
 	)
 	flag.Parse()
-	t0 := time.Now()
-	reldirs := strings.Split(*pkgs, ",")
-	l, err := gosym.Load(*repo, *hdir, reldirs, *tags, "")
-	if err != nil {
-		fmt.Fprintln(os.Stderr, err)
-		os.Exit(2)
+	if *tier == "" {
+		*tier = os.Getenv("VERIF_TIER")
+		if *tier == "" {
+			*tier = "quick"
+		}
 	}
-	fmt.Fprintf(os.Stderr, "loaded in %v\n", time.Since(t0))
+	seed := 0
+	if s := os.Getenv("VERIF_SEED"); s != "" {
+		seed, _ = strconv.Atoi(s)
+	}
+	hdir := filepath.Join(*vdir, "harness")
+	if *replay != "" {
+		os.Exit(doReplay(*replay, *repo, *vdir))
+	}
+	metas := map[string]*PropMeta{}
+	if b, err := os.ReadFile(filepath.Join(hdir, "props.json")); err == nil {
+		if err := json.Unmarshal(b, &metas); err != nil {
+			fatal(2, "props.json: %v", err)
+		}
+	}
+	meta := metas[*prop]
+	if meta == nil {
+		meta = &PropMeta{}
+	}
+	if *pkgs != "" {
+		meta.Pkgs = strings.Split(*pkgs, ",")
+	}
+	if len(meta.Pkgs) == 0 {
+		fatal(2, "no packages for property %q", *prop)
+	}
+	if meta.Tags == "" {
+		meta.Tags = "verif"
+	}
+	tmo := meta.TimeoutMs
+	if *tier == "thorough" && meta.ThoroughTimeoutMs > 0 {
+		tmo = meta.ThoroughTimeoutMs
+	}
+	if tmo == 0 {
+		tmo = 60000
+	}
+	if *timeout > 0 {
+		tmo = *timeout
+	}
+	t0 := time.Now()
+	genDir := filepath.Join(*vdir, "gen", *prop)
+	os.RemoveAll(genDir)
+	l, err := gosym.Load(*repo, hdir, meta.Pkgs, meta.Tags, genDir)
+	if err != nil {
+		fatal(2, "load: %v", err)
+	}
+	loadT := time.Since(t0)
 	var hp []*ssa.Package
-	for _, rd := range reldirs {
+	for _, rd := range meta.Pkgs {
 		p := l.Pkgs[gosym.RepoModule+"/"+rd]
+		if rd == "." {
+			p = l.Pkgs[gosym.RepoModule]
+		}
 		if p == nil {
-			fmt.Fprintln(os.Stderr, "no package", rd)
-			os.Exit(2)
+			fatal(2, "no package %s", rd)
 		}
 		hp = append(hp, p)
 	}
-	fns := gosym.FindHarnesses(hp, strings.Split(*run, ",")...)
-	cfg := gosym.RunConfig{Workers: *workers, SolverKind: *solver, TimeoutMs: *timeout, MaxPathsPerHarness: *maxp, Tier: *tier, InitPkgs: hp}
+	prefixes := []string{"VerifH_" + *prop + "_"}
+	if *tier == "thorough" {
+		prefixes = append(prefixes, "VerifT_"+*prop+"_")
+	}
+	if *run != "" {
+		prefixes = strings.Split(*run, ",")
+	}
+	fns := gosym.FindHarnesses(hp, prefixes...)
+	if len(fns) == 0 {
+		fatal(2, "no harness functions with prefixes %v", prefixes)
+	}
+	// known findings
+	var kfs []KnownFinding
+	if b, err := os.ReadFile(filepath.Join(*vdir, "known_findings.json")); err == nil {
+		if err := json.Unmarshal(b, &kfs); err != nil {
+			fatal(2, "known_findings.json: %v", err)
+		}
+	}
+	knownIDs := map[string]bool{}
+	kfByID := map[string]KnownFinding{}
+	for _, k := range kfs {
+		kfByID[k.ID] = k
+		if k.Status == "open" {
+			knownIDs[k.ID] = true
+		}
+	}
+	cfg := gosym.RunConfig{Workers: *workers, SolverKind: *solver, TimeoutMs: tmo, MaxPathsPerHarness: meta.MaxPaths,
+		Tier: *tier, InitPkgs: hp, KnownIDs: knownIDs, SolverArgs: meta.SolverArgs, MaxDecisions: meta.MaxDecisions, Verbose: *verbose,
+		Configure: func(in *gosym.Interp) {
+			in.AllocBound = meta.AllocBound
+		}}
+	if cfg.MaxPathsPerHarness == 0 {
+		cfg.MaxPathsPerHarness = 50000
+	}
+	t1 := time.Now()
 	runs, stats, err := gosym.RunHarnesses(l, fns, cfg)
 	if err != nil {
-		fmt.Fprintln(os.Stderr, err)
-		os.Exit(2)
+		fatal(2, "engine: %v", err)
 	}
+	exploreT := time.Since(t1)
+
+	// native builds (replay + translator validation)
+	natives := map[string]*gosym.NativeBuild{}
+	pkgOf := map[string]string{}
+	for i, p := range hp {
+		for _, f := range gosym.FindHarnesses([]*ssa.Package{p}, "VerifH_", "VerifT_") {
+			pkgOf[f.Name()] = meta.Pkgs[i]
+		}
+	}
+	getNative := func(reldir string) (*gosym.NativeBuild, error) {
+		if nb, ok := natives[reldir]; ok {
+			return nb, nil
+		}
+		var pk *ssa.Package
+		for i, rd := range meta.Pkgs {
+			if rd == reldir {
+				pk = hp[i]
+			}
+		}
+		nb, err := gosym.BuildNative(l, *repo, reldir, genDir, meta.Tags, pk)
+		if err != nil {
+			return nil, err
+		}
+		natives[reldir] = nb
+		return nb, nil
+	}
+
+	exit := 0
+	machineryFail := []string{}
+	violations := 0
+	var outLines []string
+	replays := 0
+	unconfirmed := 0
+	knownHit := []string{}
+	vacuity := map[string]interface{}{}
+	totalPaths, totalDecisions, totalChecked, totalTrivial := 0, 0, 0, 0
+	funcs := map[string]bool{}
+	var samples []interface{}
+	inconclusive := []string{}
+	unsupported := []string{}
+	replayDir := filepath.Join(*vdir, "replays", *prop)
 	for _, f := range fns {
 		h := runs[f.Name()]
-		fmt.Println(h.Summary())
-		for _, v := range h.Violations {
-			fmt.Printf("  VIOL %s %s: %s\n", v.Kind, v.Label, v.Msg)
-			for k, m := range v.Model {
-				fmt.Printf("     %s = %#x\n", k, m.Lo)
+		if *verbose || *prop == "" {
+			fmt.Println(h.Summary())
+		}
+		totalPaths += h.Paths
+		totalDecisions += h.Decisions
+		for k := range h.Funcs {
+			funcs[k] = true
+		}
+		nChecked := 0
+		for lbl, a := range h.Asserts {
+			totalChecked += a.Checked
+			totalTrivial += a.Trivial
+			nChecked += a.Checked + a.Trivial + a.Failed
+			_ = lbl
+		}
+		for _, s := range h.Samples {
+			if len(samples) < 12 {
+				samples = append(samples, map[string]string{"harness": h.Name, "path": s})
+			}
+		}
+		for _, s := range h.Inconclusive {
+			inconclusive = append(inconclusive, h.Name+": "+s)
+		}
+		for k, n := range h.Unsupported {
+			unsupported = append(unsupported, fmt.Sprintf("%s: %s ×%d", h.Name, k, n))
+		}
+		// vacuity: every harness must complete at least one path and evaluate at least one assertion
+		req := requiredReach(f)
+		missing := []string{}
+		for _, r := range req {
+			if !h.Reached[r] {
+				missing = append(missing, r)
+			}
+		}
+		vacuity[h.Name] = map[string]interface{}{"paths_completed": h.Completed, "asserts_evaluated": nChecked,
+			"reach_required": len(req), "reach_missing": missing}
+		if h.Completed == 0 && len(h.Violations) == 0 && len(h.Known) == 0 {
+			machineryFail = append(machineryFail, h.Name+": no path completed ("+h.Summary()+")")
+		}
+		if len(missing) > 0 {
+			machineryFail = append(machineryFail, fmt.Sprintf("%s: reach labels not witnessed: %v", h.Name, missing))
+		}
+		// violations: replay natively before reporting
+		all := append(append([]*gosym.Violation{}, h.Violations...), h.Known...)
+		for i, v := range all {
+			os.MkdirAll(replayDir, 0o755)
+			rp := filepath.Join(replayDir, fmt.Sprintf("%s-%d.json", h.Name, i))
+			rec := map[string]interface{}{"property": *prop, "harness": h.Name, "pkg": pkgOf[h.Name], "label": v.Label,
+				"kind": v.Kind, "msg": v.Msg, "assign": gosym.ModelToAssign(v.Model), "tier": *tier, "tags": meta.Tags, "known_id": v.KnownID}
+			confirmed := false
+			var outcome string
+			if !*noNative {
+				nb, err := getNative(pkgOf[h.Name])
+				if err != nil {
+					machineryFail = append(machineryFail, err.Error())
+				} else {
+					replays++
+					var raw string
+					outcome, raw, _ = nb.RunSingle(h.Name, gosym.ModelToAssign(v.Model), *tier)
+					confirmed = confirms(v, outcome)
+					rec["native_outcome"] = outcome
+					if !confirmed {
+						rec["native_output"] = tail(raw, 4000)
+					}
+				}
+			} else {
+				confirmed = true
+			}
+			rec["confirmed"] = confirmed
+			b, _ := json.MarshalIndent(rec, "", " ")
+			os.WriteFile(rp, b, 0o644)
+			switch {
+			case !confirmed:
+				unconfirmed++
+				inconclusive = append(inconclusive, fmt.Sprintf("%s: unconfirmed counterexample for %s (native outcome %q), replay=%s", h.Name, v.Label, outcome, rp))
+			case v.KnownID != "":
+				k := kfByID[v.KnownID]
+				outLines = append(outLines, fmt.Sprintf("KNOWN-FINDING: property=%s %s: %s", *prop, k.ID, k.Text))
+				knownHit = append(knownHit, k.ID)
+			default:
+				violations++
+				outLines = append(outLines, fmt.Sprintf("VIOLATION property=%s replay=%s", *prop, rp))
+				outLines = append(outLines, fmt.Sprintf("  harness=%s kind=%s label=%s msg=%s assign=%v", h.Name, v.Kind, v.Label, trunc(v.Msg, 300), gosym.ModelToAssign(v.Model)))
+				exit = 1
 			}
 		}
 	}
-	fmt.Printf("solver: %+v\nwall %v\n", *stats, time.Since(t0))
+
+	// translator validation: concrete engine runs vs native runs
+	validated, valMismatch, valSkipped := 0, 0, 0
+	var valNotes []string
+	if !*noNative {
+		n := meta.ValidateN
+		if n == 0 {
+			n = 24
+		}
+		if *tier == "thorough" {
+			n *= 4
+		}
+		skipH := map[string]bool{}
+		for _, s := range meta.NoValidate {
+			skipH[s] = true
+		}
+		v, mm, sk, notes, err := validate(l, fns, hp, cfg, n, seed, pkgOf, getNative, *tier, skipH)
+		if err != nil {
+			machineryFail = append(machineryFail, "translator validation: "+err.Error())
+		}
+		validated, valMismatch, valSkipped, valNotes = v, mm, sk, notes
+		if mm > 0 {
+			machineryFail = append(machineryFail, fmt.Sprintf("translator validation: %d mismatches: %v", mm, notes))
+		}
+	}
+
+	sort.Strings(inconclusive)
+	sort.Strings(unsupported)
+	wall := time.Since(t0)
+	var fl []string
+	for k := range funcs {
+		if strings.Contains(k, "arnodel/golua") && !strings.Contains(k, ".Verif") && !strings.Contains(k, ".verif") && !strings.Contains(k, ".nondet") {
+			fl = append(fl, strings.ReplaceAll(k, "github.com/arnodel/golua/", ""))
+		}
+	}
+	sort.Strings(fl)
+	if len(samples) == 0 {
+		samples = append(samples, "no completed path")
+	}
+	ev := map[string]interface{}{
+		"property_id": *prop, "tier": *tier, "seed": seed, "level": "model_checking",
+		"coverage": map[string]interface{}{
+			"states": max1(totalPaths), "transitions": max1(totalDecisions),
+			"traces_validated_against_impl": validated + replays,
+			"samples":    samples,
+			"exhaustive": false,
+			"harnesses":  len(fns),
+			"functions_encoded": fl,
+			"bounds":     meta.Bounds,
+			"outside_claim": meta.Outside,
+			"queries": map[string]interface{}{"total": stats.Queries, "sat": stats.Sat, "unsat": stats.Unsat,
+				"unknown": stats.Unknown, "errors": stats.Errors, "solver_restarts": stats.Restarts},
+			"assertions": map[string]int{"discharged_unsat": totalChecked, "folded_true_concretely": totalTrivial},
+			"solver":        *solver,
+			"solver_wall_s": stats.Wall.Seconds(),
+			"load_s":        loadT.Seconds(), "explore_s": exploreT.Seconds(),
+			"vacuity":       vacuity,
+			"inconclusive":  inconclusive,
+			"unsupported_paths": unsupported,
+			"known_findings_hit": knownHit,
+			"unconfirmed_counterexamples": unconfirmed,
+			"translator_validation": map[string]interface{}{"agreeing_runs": validated, "mismatches": valMismatch, "skipped": valSkipped, "notes": valNotes},
+			"explanation": "paths = feasible execution paths of the harness through the real SSA; transitions = solver-decided branch decisions; every assertion on every path is discharged by an SMT query (unsat) or folded concretely",
+		},
+		"assumptions": meta.Assumptions,
+		"wall_s":      wall.Seconds(),
+		"violations":  violations,
+	}
+	os.MkdirAll(filepath.Join(*vdir, "evidence"), 0o755)
+	if *prop != "" {
+		b, _ := json.MarshalIndent(ev, "", " ")
+		os.WriteFile(filepath.Join(*vdir, "evidence", *prop+".json"), b, 0o644)
+	}
+	for _, l := range outLines {
+		fmt.Println(l)
+	}
+	if len(inconclusive) > 0 || len(unsupported) > 0 {
+		fmt.Fprintf(os.Stderr, "note: %d inconclusive items, %d unsupported path classes (see evidence)\n", len(inconclusive), len(unsupported))
+		if *verbose {
+			for _, s := range inconclusive {
+				fmt.Fprintln(os.Stderr, "  inconclusive:", s)
+			}
+			for _, s := range unsupported {
+				fmt.Fprintln(os.Stderr, "  unsupported:", s)
+			}
+		}
+	}
+	fmt.Printf("property=%s tier=%s harnesses=%d paths=%d decisions=%d queries=%d (unsat %d, sat %d, unknown %d) asserts_discharged=%d validated=%d violations=%d known=%d wall=%.1fs\n",
+		*prop, *tier, len(fns), totalPaths, totalDecisions, stats.Queries, stats.Unsat, stats.Sat, stats.Unknown, totalChecked, validated, violations, len(knownHit), wall.Seconds())
+	if exit == 0 && len(machineryFail) > 0 {
+		for _, m := range machineryFail {
+			fmt.Fprintln(os.Stderr, "MACHINERY:", m)
+		}
+		os.Exit(2)
+	}
+	os.Exit(exit)
+}
+
+func max1(n int) int {
+	if n < 1 {
+		return 1
+	}
+	return n
+}
+
+func trunc(s string, n int) string {
+	if len(s) > n {
+		return s[:n] + "…"
+	}
+	return s
+}
+
+func tail(s string, n int) string {
+	if len(s) > n {
+		return "…" + s[len(s)-n:]
+	}
+	return s
+}
+
+// confirms decides whether the native outcome reproduces the violation.
+func confirms(v *gosym.Violation, outcome string) bool {
+	parts := strings.SplitN(outcome, "|", 3)
+	if len(parts) < 2 {
+		return false
+	}
+	status, fails := parts[0], strings.Split(parts[1], ",")
+	switch v.Kind {
+	case "panic":
+		return status == "panic" || status == "crash" || status == "timeout"
+	case "unwind":
+		return status == "timeout" || status == "crash"
+	default:
+		label := v.Label
+		if i := strings.Index(label, "@"); i >= 0 {
+			label = label[:i]
+		}
+		for _, f := range fails {
+			if f == label {
+				return true
+			}
+		}
+		// an assertion placed after a crash point
+		return false
+	}
+}
+
+// requiredReach scans the harness (and same-package callees, one level) for
+// verifReach("label") calls with constant labels.
+func requiredReach(f *ssa.Function) []string {
+	seen := map[string]bool{}
+	visited := map[*ssa.Function]bool{}
+	var visit func(fn *ssa.Function, depth int)
+	visit = func(fn *ssa.Function, depth int) {
+		if visited[fn] || depth > 3 {
+			return
+		}
+		visited[fn] = true
+		for _, b := range fn.Blocks {
+			for _, ins := range b.Instrs {
+				c, ok := ins.(ssa.CallInstruction)
+				if !ok {
+					continue
+				}
+				callee := c.Common().StaticCallee()
+				if callee == nil {
+					continue
+				}
+				if callee.Name() == "verifReach" {
+					if k, ok := c.Common().Args[0].(*ssa.Const); ok {
+						seen[strings.Trim(k.Value.ExactString(), `"`)] = true
+					}
+				} else if callee.Pkg == f.Pkg && (strings.HasPrefix(callee.Name(), "verif") || strings.HasPrefix(callee.Name(), "vh")) {
+					visit(callee, depth+1)
+				}
+			}
+		}
+		for _, an := range fn.AnonFuncs {
+			visit(an, depth+1)
+		}
+	}
+	visit(f, 0)
+	var r []string
+	for k := range seen {
+		r = append(r, k)
+	}
+	sort.Strings(r)
+	return r
+}
+
+// validate runs each harness concretely in the engine on pseudo-random and
+// boundary assignments and compares the outcome with the native build.
+func validate(l *gosym.Loaded, fns []*ssa.Function, hp []*ssa.Package, cfg gosym.RunConfig, n, seed int,
+	pkgOf map[string]string, getNative func(string) (*gosym.NativeBuild, error), tier string, skipH map[string]bool) (ok, mismatch, skipped int, notes []string, err error) {
+	in, cleanup, err := gosym.NewConcreteInterp(l, cfg)
+	if err != nil {
+		return 0, 0, 0, nil, err
+	}
+	defer cleanup()
+	type pending struct {
+		h       string
+		outcome string
+	}
+	byPkg := map[string][]gosym.BatchCase{}
+	pend := map[string][]pending{}
+	boundary := []uint64{0, 1, 2, 0xffffffffffffffff, 0x7fffffffffffffff, 0x8000000000000000, 0x43e0000000000000,
+		0xc3e0000000000000, 0x7ff0000000000000, 0xfff0000000000000, 0x7ff8000000000001, 0x8000000000000000, 0x4340000000000000,
+		0x3ff0000000000000, 0xbff0000000000000, 0x4000000000000000, 3, 7, 8, 16, 63, 64, 65, 255, 256, 0x3fe0000000000000}
+	for _, f := range fns {
+		if skipH[f.Name()] {
+			skipped += n
+			continue
+		}
+		for i := 0; i < n; i++ {
+			i := i
+			gen := func(name string, w int) uint64 {
+				hsh := fnv.New64a()
+				fmt.Fprintf(hsh, "%d|%d|%s|%s", seed, i, f.Name(), name)
+				x := hsh.Sum64()
+				switch {
+				case i%3 == 0:
+					return boundary[x%uint64(len(boundary))]
+				case i%3 == 1 && w >= 16:
+					return x % 300
+				}
+				return x
+			}
+			outcome, assign, skip := in.ConcreteOutcome(f, gen)
+			if skip != "" {
+				skipped++
+				if len(notes) < 10 {
+					notes = append(notes, f.Name()+": skipped: "+skip)
+				}
+				continue
+			}
+			pk := pkgOf[f.Name()]
+			byPkg[pk] = append(byPkg[pk], gosym.BatchCase{H: f.Name(), A: assign})
+			pend[pk] = append(pend[pk], pending{f.Name(), outcome})
+		}
+	}
+	for pk, cases := range byPkg {
+		nb, e := getNative(pk)
+		if e != nil {
+			return ok, mismatch, skipped, notes, e
+		}
+		// a native crash kills the batch: run in chunks, and fall back to single runs for the remainder
+		res, raw, _ := nb.RunBatch(cases, tier)
+		for i, r := range res {
+			want := pend[pk][i].outcome
+			if r == "" {
+				// process died at or before this case: run singly
+				o, _, _ := nb.RunSingle(cases[i].H, cases[i].A, tier)
+				r = o
+				if strings.HasPrefix(r, "crash") && strings.HasPrefix(want, "panic") {
+					r = want
+				}
+			}
+			if r == want {
+				ok++
+			} else {
+				mismatch++
+				if len(notes) < 10 {
+					notes = append(notes, fmt.Sprintf("%s: engine %q native %q assign %v", cases[i].H, want, r, cases[i].A))
+				}
+				_ = raw
+			}
+		}
+	}
+	return
 }
